@@ -266,3 +266,78 @@ Example C15_example_resource_view :
   /\ decision_of (snd (enforce_ex_m k_rbac15 ex_state [1006; 1008; 1011])) = Ok true
   /\ decision_of (snd (enforce_ex_m k_rbac15 ex_state [1004; 1008; 1011])) = Ok true.
 Proof. split; [reflexivity|]. split; [vm_compute; reflexivity|]. split; vm_compute; reflexivity. Qed.
+
+(* ---------------------------------------------------------------------------------------------------------------
+   Of the SOURCE: the RBAC API wrappers of casbin/enforcer.py that CHANGE the policy (add_role_for_user, delete_role_for_user,
+   delete_roles_for_user, delete_user, delete_role, delete_permission, add_permission_for_user, delete_permission_for_user,
+   delete_permissions_for_user, add_role_for_user_in_domain, delete_roles_for_user_in_domain) are re-translated on every run
+   into programs of the language of WrapLang.v (coq/gen/RbacApiGen.v: sequences of management calls with flattened
+   arguments, `res1 or res2`); WrapTie.v proves that each computes the corresponding step of Mgmt.step - the steps of which
+   the histories behind `Inv` (C04), the rule-set theorems (C06), the mirror theorems (C09) and the notification theorems (C20)
+   are made.  For every kind of model, enforcer state and argument. *)
+From PyCasbin Require WrapLang WrapTie.
+From PyCasbinGen Require RbacApiGen.
+
+Theorem C15_source_delete_user : forall k s u,
+  WrapLang.wrapper k RbacApiGen.delete_user_gen s [(RbacApiGen.w3_user, WrapLang.WVN u)] = Some (step k s (ODeleteUser u)).
+Proof. exact WrapTie.tie_delete_user. Qed.
+Print Assumptions C15_source_delete_user.
+
+Theorem C15_source_delete_role : forall k s r,
+  WrapLang.wrapper k RbacApiGen.delete_role_gen s [(RbacApiGen.w4_role, WrapLang.WVN r)] = Some (step k s (ODeleteRole r)).
+Proof. exact WrapTie.tie_delete_role. Qed.
+Print Assumptions C15_source_delete_role.
+
+Theorem C15_source_add_role_for_user : forall k s u r,
+  WrapLang.wrapper k RbacApiGen.add_role_for_user_gen s [(RbacApiGen.w0_user, WrapLang.WVN u); (RbacApiGen.w0_role, WrapLang.WVN r)]
+  = Some (step k s (OAddRoleForUser u r)).
+Proof. exact WrapTie.tie_add_role_for_user. Qed.
+Print Assumptions C15_source_add_role_for_user.
+
+Theorem C15_source_delete_role_for_user : forall k s u r,
+  WrapLang.wrapper k RbacApiGen.delete_role_for_user_gen s [(RbacApiGen.w1_user, WrapLang.WVN u); (RbacApiGen.w1_role, WrapLang.WVN r)]
+  = Some (step k s (ODeleteRoleForUser u r)).
+Proof. exact WrapTie.tie_delete_role_for_user. Qed.
+Print Assumptions C15_source_delete_role_for_user.
+
+Theorem C15_source_delete_roles_for_user : forall k s u,
+  WrapLang.wrapper k RbacApiGen.delete_roles_for_user_gen s [(RbacApiGen.w2_user, WrapLang.WVN u)] = Some (step k s (ODeleteRolesForUser u)).
+Proof. exact WrapTie.tie_delete_roles_for_user. Qed.
+Print Assumptions C15_source_delete_roles_for_user.
+
+Theorem C15_source_delete_permission : forall k s vs,
+  WrapLang.wrapper k RbacApiGen.delete_permission_gen s [(RbacApiGen.w5_permission, WrapLang.WVL vs)] = Some (step k s (ODeletePermission vs)).
+Proof. exact WrapTie.tie_delete_permission. Qed.
+Print Assumptions C15_source_delete_permission.
+
+Theorem C15_source_add_permission_for_user : forall k s u vs,
+  WrapLang.wrapper k RbacApiGen.add_permission_for_user_gen s [(RbacApiGen.w6_user, WrapLang.WVN u); (RbacApiGen.w6_permission, WrapLang.WVL vs)]
+  = Some (step k s (OAddPermissionForUser u vs)).
+Proof. exact WrapTie.tie_add_permission_for_user. Qed.
+Print Assumptions C15_source_add_permission_for_user.
+
+Theorem C15_source_delete_permission_for_user : forall k s u vs,
+  WrapLang.wrapper k RbacApiGen.delete_permission_for_user_gen s [(RbacApiGen.w7_user, WrapLang.WVN u); (RbacApiGen.w7_permission, WrapLang.WVL vs)]
+  = Some (step k s (ODeletePermissionForUser u vs)).
+Proof. exact WrapTie.tie_delete_permission_for_user. Qed.
+Print Assumptions C15_source_delete_permission_for_user.
+
+Theorem C15_source_delete_permissions_for_user : forall k s u,
+  WrapLang.wrapper k RbacApiGen.delete_permissions_for_user_gen s [(RbacApiGen.w8_user, WrapLang.WVN u)]
+  = Some (step k s (ODeletePermissionsForUser u)).
+Proof. exact WrapTie.tie_delete_permissions_for_user. Qed.
+Print Assumptions C15_source_delete_permissions_for_user.
+
+Theorem C15_source_add_role_for_user_in_domain : forall k s u r d,
+  WrapLang.wrapper k RbacApiGen.add_role_for_user_in_domain_gen s
+    [(RbacApiGen.w9_user, WrapLang.WVN u); (RbacApiGen.w9_role, WrapLang.WVN r); (RbacApiGen.w9_domain, WrapLang.WVN d)]
+  = Some (step k s (OAddRoleForUserInDomain u r d)).
+Proof. exact WrapTie.tie_add_role_for_user_in_domain. Qed.
+Print Assumptions C15_source_add_role_for_user_in_domain.
+
+Theorem C15_source_delete_roles_for_user_in_domain : forall k s u r d,
+  WrapLang.wrapper k RbacApiGen.delete_roles_for_user_in_domain_gen s
+    [(RbacApiGen.w10_user, WrapLang.WVN u); (RbacApiGen.w10_role, WrapLang.WVN r); (RbacApiGen.w10_domain, WrapLang.WVN d)]
+  = Some (step k s (ODeleteRolesForUserInDomain u r d)).
+Proof. exact WrapTie.tie_delete_roles_for_user_in_domain. Qed.
+Print Assumptions C15_source_delete_roles_for_user_in_domain.
